@@ -60,7 +60,7 @@ def normDir (s : Bytes) : Bytes := normFile (trimRight slash s) ++ [slash]
 /-- files.AsRelativePath -/
 def asRel (p : Bytes) : Bytes :=
   let c := trimLeft slash (toNix p)
-  if c.length > 1 && hasSuffix p slashS then c ++ [slash] else c
+  if c != [] && c != dotS && hasSuffix p slashS then c ++ [slash] else c
 
 /-- files.AsExplicitRelativePath -/
 def asExplicitRel (p : Bytes) : Bytes := dot :: slash :: asRel p
